@@ -563,6 +563,7 @@ def impl_optable(c):
 
 
 IMPL_SECONDS = 1.0
+_budget = [IMPL_SECONDS]
 IMPL_BYTES = 6 << 30
 
 
@@ -571,6 +572,8 @@ def impl(c):
     io = _impl_once(c)
     if io.get("err") == "TIMEOUT":
         io = _impl_once(c)
+        if io.get("err") == "TIMEOUT":
+            _budget[0] = min(_budget[0], 0.4)     # a real hang exists: do not spend a second on each further one
     return io
 
 
@@ -593,7 +596,7 @@ def _impl_once(c):
         resource.setrlimit(resource.RLIMIT_AS, (IMPL_BYTES if hard == resource.RLIM_INFINITY else min(IMPL_BYTES, hard), hard))
     except (ValueError, OSError):
         pass
-    signal.setitimer(signal.ITIMER_VIRTUAL, IMPL_SECONDS)
+    signal.setitimer(signal.ITIMER_VIRTUAL, _budget[0])
     try:
         if c["entry"] == "expr":
             return impl_expr(c)
